@@ -19,7 +19,29 @@ type docsetOpts struct {
 
 var extremeIDs = []int64{0, 1, -1, 2, -2, 7, -7, 100, -100, 1<<43 - 1, -(1<<43 - 1), 1<<43 - 2, -(1<<43 - 2)}
 
+// text values, among them the empty string (a legal value with its own hash) in scalar and list form
+func wordsShape(r *Rand, n int) TV {
+	words := []string{"", "a", "1", "", "7"}
+	if n <= 1 && r.Chance(60) {
+		if r.Chance(15) {
+			return tvJSON(pick(r, []string{"", "1", "7"}))
+		}
+		return tvStr(pick(r, words))
+	}
+	l := make([]TV, n)
+	for i := range l {
+		l[i] = tvStr(pick(r, words))
+	}
+	if r.Chance(30) {
+		return tvList(l...)
+	}
+	return tvSlice("[]string", l...)
+}
+
 func intsShape(r *Rand, vals []int64) TV {
+	if r.Chance(10) {
+		return wordsShape(r, len(vals))
+	}
 	switch r.Intn(8) {
 	case 0:
 		if len(vals) == 1 {
@@ -210,6 +232,27 @@ func init() {
 			n := 40
 			if tier == "thorough" {
 				n = 3000
+			}
+			// corpus: values that carry no text but are values all the same (the empty string), as scalars and in
+			// lists, on fields the matching conjunction needs to be counted
+			{
+				one := func(f int, inc bool, v TV) eExpr { return eExpr{F: f, Inc: inc, V: v} }
+				c := eCase{Kind: kind, Policy: "error"}
+				c.Docs = []eDoc{
+					{ID: 1, Cons: []eConj{{one(0, true, tvStr(""))}}},
+					{ID: 2, Cons: []eConj{{one(0, true, tvStr("sh")), one(1, true, tvSlice("[]string", tvStr(""), tvStr("direct")))}}},
+					{ID: 3, Cons: []eConj{{one(0, true, tvStr("sh")), one(1, true, tvStr("x")), one(2, true, tvJSON(""))}}},
+					{ID: 4, Cons: []eConj{{one(0, false, tvStr("zz"))}}},
+					{ID: 5, Cons: []eConj{{one(1, false, tvStr(""))}, {one(2, true, tvSlice("[]string"))}}},
+				}
+				for _, a := range [][]eAssign{
+					{{F: 0, V: tvStr("")}}, {{F: 0, V: tvStr("sh")}, {F: 1, V: tvStr("")}}, {{F: 0, V: tvStr("sh")}, {F: 1, V: tvSlice("[]string", tvStr(""))}},
+					{{F: 0, V: tvStr("sh")}, {F: 1, V: tvStr("")}, {F: 2, V: tvStr("ios")}}, {{F: 0, V: tvStr("sh")}, {F: 1, V: tvStr("x")}, {F: 2, V: tvJSON("")}},
+					{{F: 0, V: tvJSON("")}}, {{F: 1, V: tvStr("")}}, {{F: 0, V: tvStr("sh")}, {F: 1, V: tvStr("x")}, {F: 2, V: tvStr("")}}, {{F: 0, V: tvList(tvStr(""))}}, {},
+				} {
+					c.Queries = append(c.Queries, eQuery{A: a})
+				}
+				add(c)
 			}
 			for i := 0; i < n; i++ {
 				o.nFields = 1 + r.Intn(5)
